@@ -26,7 +26,8 @@ ASSUMPTIONS = ['floats as reals (the "to rounding" clause of the property is out
 OPS = ['insert_new', 'insert_existing', 'update_new', 'update_existing', 'remove', 'none']
 MUST_EVALUATE = {'quick': ['inv:max>=weights', 'inv:total=sum', 'inv:positions', 'accept-threshold', 'accept-prob-in-[0,1]',
                            'zero-weight-never-selected', 'total_weight()=sum', 'proposal-uniform-over-items',
-                           'empty-set-total-is-zero', 'nonempty-total-positive', 'total-within-rounding-of-sum']}
+                           'empty-set-total-is-zero', 'nonempty-total-positive', 'total-within-rounding-of-sum',
+                           'random_removal-removes-the-selected', 'unweighted-uniform-over-items', 'unweighted-total=count']}
 OPTS = {'quick': {'max_validate': 4, 'validate_every': 5}, 'thorough': {'max_validate': 4, 'validate_every': 50, 'cfg_timeout': 1500}}
 
 
@@ -58,6 +59,13 @@ def configs(tier):
                         out.append(dict(entry='_ListDict_', k=k, op=op, target=tgt, count=cnt, op2=op2,
                                         R=2 if (tier == 'quick' or k == 4) else 3, tags=[op, 'k%d' % k]))
     out += float_configs(tier)
+    # selection followed by removal (Gillespie_SIR/SIS: infecteds.random_removal()), and the unweighted variant of the set
+    for k in range(1, kmax + 1):
+        for cnt in (0, 1, 2):
+            out.append(dict(entry='_ListDict_', k=k, op='none', target=None, count=cnt, op2=None, R=2, select='random_removal', tags=['random_removal', 'k%d' % k]))
+        for op in ('insert_new', 'remove', 'none'):
+            for tgt in (range(k) if op == 'remove' else [None]):
+                out.append(dict(entry='_ListDict_', family='unweighted', k=k, op=op, target=tgt, tags=['unweighted', op, 'k%d' % k]))
     # long rejection runs: the proposal is scripted to the light candidate T times (its acceptance test is forced to fail by an
     # assumption on the draw, so the run is ONE path), then to the heaviest one
     for T in ((150,) if tier == 'quick' else (150, 400)):
@@ -238,6 +246,8 @@ def run_path(h, cfg):
     eng = symx.ENG
     if cfg.get('family') in ('float-bits', 'float-std'):
         return run_float(h, cfg)
+    if cfg.get('family') == 'unweighted':
+        return run_unweighted(h, cfg)
     stub = RandomStub(max_uniform_per_step=cfg.get('R', 2) + 1)
     install_sim(stub)
     long_run = cfg.get('long_run')
@@ -294,10 +304,11 @@ def run_path(h, cfg):
         thr_light = weights[light] / ld.max_weight
         stub.script_choice = lambda n, seq: (list(seq).index(light) if n < long_run else list(seq).index(heavy)) if light in seq and heavy in seq else None
         stub.script_u = lambda n, u: eng.assume(LE(thr_light, u)) if (n < long_run and eng.mode == 'sym') else None
+    M0 = ld.max_weight          # (random_removal may recompute the maximum afterwards)
     n0 = len(eng.log)
-    st, chosen = h.call(ld.choose_random)
+    st, chosen = h.call(ld.random_removal if cfg.get('select') == 'random_removal' else ld.choose_random)
     if st == 'exc':
-        h.fail('select-no-exception:' + type(chosen).__name__, {'exception': repr(chosen)[:200], 'weights': show([weights[i] for i in items]), 'max': show(ld.max_weight)})
+        h.fail('select-no-exception:' + type(chosen).__name__, {'exception': repr(chosen)[:200], 'weights': show([weights[i] for i in items]), 'max': show(M0)})
         return out
     log = eng.log[n0:]
     # protocol-independent part first: whatever the sampling scheme, the result is a current candidate of positive weight
@@ -330,8 +341,8 @@ def run_path(h, cfg):
         i = j
     for it_i, (cand, u, cmps) in enumerate(iters):
         w = weights[cand]
-        thr = w / ld.max_weight
-        h.require('accept-prob-in-[0,1]', AND(LE(0, thr), LE(thr, 1)), {'w': show(w), 'max': show(ld.max_weight)})
+        thr = w / M0
+        h.require('accept-prob-in-[0,1]', AND(LE(0, thr), LE(thr, 1)), {'w': show(w), 'max': show(M0)})
         if eng.mode == 'sym':
             # the acceptance region read off the code's own comparisons of u (any comparison linear in u) must be [0, w/max)
             from vlib import laws
@@ -349,6 +360,71 @@ def run_path(h, cfg):
     if cand != chosen:
         h.fail('returns-accepted-candidate', {'chosen': str(chosen), 'last': str(cand)})
     h.require('zero-weight-never-selected', LT(0, weights[chosen]), {'chosen': str(chosen), 'w': show(weights[chosen])})
-    h.require('accepted-iff-u<w/max', LT(u, weights[chosen] / ld.max_weight), None)
+    h.require('accepted-iff-u<w/max', LT(u, weights[chosen] / M0), None)
     out['chosen'] = str(chosen)
+    if cfg.get('select') == 'random_removal':
+        # the selected candidate is gone, everything else (and Inv) is intact
+        if chosen in ld.items or chosen in ld.item_to_position or sorted(map(str, ld.items)) != sorted(str(x) for x in items if x != chosen):
+            h.fail('random_removal-removes-the-selected', {'chosen': str(chosen), 'items_after': [str(x) for x in ld.items]})
+        else:
+            h.require('random_removal-removes-the-selected', True)
+        check_inv(h, ld, 'after random_removal')
     return out
+
+
+def run_unweighted(h, cfg):
+    """the unweighted variant: positions consistent after every operation, selection = one uniform choice over exactly the current items,
+    total_weight() = number of items"""
+    import EoN.simulation as sim
+    eng = symx.ENG
+    stub = RandomStub(max_uniform_per_step=3)
+    install_sim(stub)
+    ld = sim._ListDict_()
+    for i in range(cfg['k']):
+        ld.items.append(('it', i))
+        ld.item_to_position[('it', i)] = i
+    if cfg['op'] == 'insert_new':
+        st, v = h.call(ld.insert, ('new', 0))
+    elif cfg['op'] == 'remove':
+        st, v = h.call(ld.remove, ('it', cfg['target']))
+    else:
+        st, v = 'ok', None
+    if st == 'exc':
+        h.fail('op-no-exception:' + type(v).__name__, {'exception': repr(v)[:200]})
+        return None
+    items = list(ld.items)
+    want = [('it', i) for i in range(cfg['k']) if not (cfg['op'] == 'remove' and i == cfg['target'])] + ([('new', 0)] if cfg['op'] == 'insert_new' else [])
+    ok = (sorted(map(str, items)) == sorted(map(str, want)) and len(set(items)) == len(items) and len(ld.item_to_position) == len(items)
+          and all(ld.item_to_position.get(it) == i for i, it in enumerate(items)))
+    if ok:
+        h.require('inv:positions', True)
+    else:
+        h.fail('inv:positions', {'items': [str(i) for i in items], 'want': [str(i) for i in want]})
+        return None
+    if len(ld) != len(items) or any((it in ld) is not True for it in items) or (('gone', 0) in ld):
+        h.fail('unweighted-len-contains', {'len': len(ld)})
+    st, tw = h.call(ld.total_weight)
+    if st == 'exc' or tw != len(items):
+        h.fail('unweighted-total=count', {'got': repr(tw)[:80], 'items': len(items)})
+    else:
+        h.require('unweighted-total=count', True)
+    if not items:
+        return None
+    for sel in ('choose_random', 'random_removal'):
+        n0 = len(eng.log)
+        st, chosen = h.call(getattr(ld, sel))
+        log = [e for e in eng.log[n0:] if e[0] != 'cmp']
+        if st == 'exc':
+            h.fail('select-no-exception:' + type(chosen).__name__, {'exception': repr(chosen)[:200]})
+            return None
+        if len(log) != 1 or log[0][0] != 'choice':
+            raise symx.Inconclusive('unweighted selection does not use a single uniform choice (draw kinds: %s)' % [e[0] for e in log])
+        if list(log[0][1]) != items or log[0][1][log[0][2]] != chosen:
+            h.fail('unweighted-uniform-over-items', {'proposed_from': [str(x) for x in log[0][1]], 'items': [str(x) for x in items], 'chosen': str(chosen)})
+        else:
+            h.require('unweighted-uniform-over-items', True)
+    if chosen in ld.items or len(ld.items) != len(items) - 1 or any(ld.item_to_position.get(it) != i for i, it in enumerate(ld.items)):
+        h.fail('random_removal-removes-the-selected', {'chosen': str(chosen), 'items_after': [str(x) for x in ld.items]})
+    else:
+        h.require('random_removal-removes-the-selected', True)
+    return None
